@@ -591,9 +591,8 @@ theorem set_ne {reqs : List Req} {rid rid' : Nat} (hne : rid' ≠ rid) (r' : Req
 /-! #### ping -/
 
 theorem Inv_step_ping (cfg : Cfg) (a : Acc) (s : St) (idx : Nat) (h : Inv cfg a s) :
-    specObs cfg a idx .ping (step cfg s .ping).2 = .ok ∧
-      Inv cfg (a.after .ping (step cfg s .ping).2) (step cfg s .ping).1 := by
-  simp only [step, stepOp]
+    specObs cfg a idx .ping (obsOf { s with sendq := s.sendq ++ [.ping] } {}) = .ok ∧
+      Inv cfg (a.after .ping (obsOf { s with sendq := s.sendq ++ [.ping] } {})) { s with sendq := s.sendq ++ [.ping] } := by
   refine step_pack cfg a idx .ping _ _ (by simp) h.pool (own_plain h.own (by simp) (by simp) rfl) (ownReplyBad_other _ _ _ (by simp)) ?_ ?_ ?_ ?_ ?_ ?_
   · rw [after_unans_other _ _ _ (by simp) (by simp)]
     simp only [obsOf, reqTags, List.filter_nil, List.map_nil, List.append_nil]
@@ -607,11 +606,9 @@ theorem Inv_step_ping (cfg : Cfg) (a : Acc) (s : St) (idx : Nat) (h : Inv cfg a 
 /-! #### notify -/
 
 theorem Inv_step_notify (cfg : Cfg) (a : Acc) (s : St) (rid idx : Nat) (h : Inv cfg a s)
-    (hen : opEnabled cfg s (.notify rid) = true) :
-    specObs cfg a idx (.notify rid) (step cfg s (.notify rid)).2 = .ok ∧
-      Inv cfg (a.after (.notify rid) (step cfg s (.notify rid)).2) (step cfg s (.notify rid)).1 := by
-  simp only [step, stepOp]
-  simp only [opEnabled, stepOp] at hen
+    (hen : ((stepNotify s rid).2.res != .badop) = true) :
+    specObs cfg a idx (.notify rid) (obsOf (stepNotify s rid).1 (stepNotify s rid).2) = .ok ∧
+      Inv cfg (a.after (.notify rid) (obsOf (stepNotify s rid).1 (stepNotify s rid).2)) (stepNotify s rid).1 := by
   unfold stepNotify at hen ⊢
   cases hr : s.reqs[rid]? with
   | none => simp [hr] at hen
@@ -697,92 +694,139 @@ theorem Inv_process_nochange (cfg : Cfg) (a : Acc) (s : St) (mt : Int) (t idx : 
   · simp [isReqOk]
   · exact peak_mono h.peak
 
+/-- `_ProcessTaggedReply` on any tag (the whole of Kafka's `_ProcessReply`; ThriftMux's for a
+    frame that is not the ping answer and not on tag 0) -/
+theorem Inv_process_tagged (cfg : Cfg) (a : Acc) (s : St) (mt : Int) (t idx : Nat) (h : Inv cfg a s) :
+    specObs cfg a idx (.process mt t) (obsOf (stepProcessKafka s t).1 (stepProcessKafka s t).2) = .ok ∧
+      Inv cfg (a.after (.process mt t) (obsOf (stepProcessKafka s t).1 (stepProcessKafka s t).2))
+        (stepProcessKafka s t).1 := by
+  unfold stepProcessKafka
+  cases hl : tmLookup t s.tagmap with
+  | none =>
+    rw [releaseTag_none hl]
+    exact Inv_process_nochange cfg a s mt t idx h
+  | some rid0 =>
+    rw [releaseTag_some hl]
+    simp only
+    have hkey : t ∈ tmKeys s.tagmap := tmLookup_some_key hl
+    obtain ⟨hp', hfree', hnext'⟩ := PoolInv_release t h.pool hkey
+    refine step_pack cfg a idx (.process mt t) _ _ (by simp) hp' ?_ ?_ ?_ ?_ ?_ ?_ ?_ ?_
+    · intro p hp
+      rw [after_pairs_process] at hp
+      simp only [obsOf, reqPairs, List.filter_nil, List.map_nil, List.append_nil] at hp
+      obtain ⟨hp1, hp2⟩ := List.mem_filter.mp hp
+      have hne : p.1 ≠ t := by simpa using hp2
+      show tmLookup p.1 (tmErase t s.tagmap) = some p.2
+      rw [tmLookup_erase_ne hne]; exact h.own p hp1
+    · simp only [ownReplyBad, obsOf, List.find?_eq_none, List.mem_filter, beq_iff_eq, List.any_cons,
+        List.any_nil, Bool.or_false, bne_iff_ne, ne_eq, Decidable.not_not, and_imp]
+      intro p hp1 hp2
+      have := h.own p hp1
+      rw [hp2, hl] at this
+      injection this
+    · rw [after_unans_process]
+      simp only [obsOf, reqTags, List.filter_nil, List.map_nil, List.append_nil]
+      -- the answered request's key becomes "answered"
+      have h1 : QInv a.tags s.tagmap s.sendq (setKey s.reqs rid0 .answered) := by
+        apply QInv_reqs h.q
+        intro rid' t' hi r' hr'
+        unfold setKey
+        by_cases he : rid' = rid0
+        · subst he
+          rw [hr']
+          exact ⟨{ r' with key := .answered }, set_self hr' _, rfl, Or.inr rfl⟩
+        · cases hr0 : s.reqs[rid0]? with
+          | none => exact ⟨r', hr', rfl, Or.inl rfl⟩
+          | some r0 => exact ⟨r', by simp only; rw [set_ne he]; exact hr', rfl, Or.inl rfl⟩
+      have h2 := QInv_unans_subset (u' := a.tags.filter (· != t)) h1
+        (fun x hx => (List.mem_filter.mp hx).1)
+      apply QInv_erase t h2
+      · intro rid' hi r' hr' hk
+        by_cases he : rid' = rid0
+        · subst he
+          obtain ⟨r0, hr0, _, _⟩ := h.q.qitem rid' t hi
+          unfold setKey at hr'
+          rw [hr0] at hr'
+          simp only at hr'
+          rw [set_self hr0] at hr'
+          injection hr' with hr'
+          subst hr'
+          cases hk
+        · obtain ⟨r0, hr0, _, hk0⟩ := h.q.qitem rid' t hi
+          have hsame : (setKey s.reqs rid0 .answered)[rid']? = s.reqs[rid']? := by
+            unfold setKey
+            cases hr00 : s.reqs[rid0]? with
+            | none => rfl
+            | some r00 => simp only; exact set_ne he _
+          rw [hsame, hr0] at hr'
+          injection hr' with hr'
+          subst hr'
+          rcases hk0 with hk0 | ⟨_, hl0, _⟩
+          · rw [hk0] at hk; cases hk
+          · rw [hl] at hl0; injection hl0 with hl0; exact he hl0.symm
+      · simp
+    · simp [givenTags, isReqOk, obsOf, reqTags]
+    · exact uniqueOk_nil _
+    · intro x hx
+      simp only [hfree', List.mem_cons] at hx
+      rcases hx with hx | hx
+      · subst hx; right; left; simp [answers]
+      · exact free_old h.pfree x hx
+    · simp [isReqOk]
+    · simp only [hnext']
+      have hle : s.pool.next ≤ a.peak + 1 := h.peak
+      exact peak_mono hle
+
 theorem Inv_step_process (cfg : Cfg) (a : Acc) (s : St) (mt : Int) (t idx : Nat) (h : Inv cfg a s) :
-    specObs cfg a idx (.process mt t) (step cfg s (.process mt t)).2 = .ok ∧
-      Inv cfg (a.after (.process mt t) (step cfg s (.process mt t)).2) (step cfg s (.process mt t)).1 := by
-  simp only [step, stepOp]
+    specObs cfg a idx (.process mt t) (obsOf (stepProcess s mt t).1 (stepProcess s mt t).2) = .ok ∧
+      Inv cfg (a.after (.process mt t) (obsOf (stepProcess s mt t).1 (stepProcess s mt t).2)) (stepProcess s mt t).1 := by
   unfold stepProcess
   by_cases hping : t = 1 ∧ mt = -65
   · rw [if_pos hping]; exact Inv_process_nochange cfg a s mt t idx h
   · rw [if_neg hping]
     by_cases ht0 : t ≠ 0
     · rw [if_pos ht0]
-      cases hl : tmLookup t s.tagmap with
-      | none =>
-        rw [releaseTag_none hl]
-        exact Inv_process_nochange cfg a s mt t idx h
-      | some rid0 =>
-        rw [releaseTag_some hl]
-        simp only
-        have hkey : t ∈ tmKeys s.tagmap := tmLookup_some_key hl
-        obtain ⟨hp', hfree', hnext'⟩ := PoolInv_release t h.pool hkey
-        refine step_pack cfg a idx (.process mt t) _ _ (by simp) hp' ?_ ?_ ?_ ?_ ?_ ?_ ?_ ?_
-        · intro p hp
-          rw [after_pairs_process] at hp
-          simp only [obsOf, reqPairs, List.filter_nil, List.map_nil, List.append_nil] at hp
-          obtain ⟨hp1, hp2⟩ := List.mem_filter.mp hp
-          have hne : p.1 ≠ t := by simpa using hp2
-          show tmLookup p.1 (tmErase t s.tagmap) = some p.2
-          rw [tmLookup_erase_ne hne]; exact h.own p hp1
-        · simp only [ownReplyBad, obsOf, List.find?_eq_none, List.mem_filter, beq_iff_eq, List.any_cons,
-            List.any_nil, Bool.or_false, bne_iff_ne, ne_eq, Decidable.not_not, and_imp]
-          intro p hp1 hp2
-          have := h.own p hp1
-          rw [hp2, hl] at this
-          injection this
-        · rw [after_unans_process]
-          simp only [obsOf, reqTags, List.filter_nil, List.map_nil, List.append_nil]
-          -- the answered request's key becomes "answered"
-          have h1 : QInv a.tags s.tagmap s.sendq (setKey s.reqs rid0 .answered) := by
-            apply QInv_reqs h.q
-            intro rid' t' hi r' hr'
-            unfold setKey
-            by_cases he : rid' = rid0
-            · subst he
-              rw [hr']
-              exact ⟨{ r' with key := .answered }, set_self hr' _, rfl, Or.inr rfl⟩
-            · cases hr0 : s.reqs[rid0]? with
-              | none => exact ⟨r', hr', rfl, Or.inl rfl⟩
-              | some r0 => exact ⟨r', by simp only; rw [set_ne he]; exact hr', rfl, Or.inl rfl⟩
-          have h2 := QInv_unans_subset (u' := a.tags.filter (· != t)) h1
-            (fun x hx => (List.mem_filter.mp hx).1)
-          apply QInv_erase t h2
-          · intro rid' hi r' hr' hk
-            by_cases he : rid' = rid0
-            · subst he
-              obtain ⟨r0, hr0, _, _⟩ := h.q.qitem rid' t hi
-              unfold setKey at hr'
-              rw [hr0] at hr'
-              simp only at hr'
-              rw [set_self hr0] at hr'
-              injection hr' with hr'
-              subst hr'
-              cases hk
-            · obtain ⟨r0, hr0, _, hk0⟩ := h.q.qitem rid' t hi
-              have hsame : (setKey s.reqs rid0 .answered)[rid']? = s.reqs[rid']? := by
-                unfold setKey
-                cases hr00 : s.reqs[rid0]? with
-                | none => rfl
-                | some r00 => simp only; exact set_ne he _
-              rw [hsame, hr0] at hr'
-              injection hr' with hr'
-              subst hr'
-              rcases hk0 with hk0 | ⟨_, hl0, _⟩
-              · rw [hk0] at hk; cases hk
-              · rw [hl] at hl0; injection hl0 with hl0; exact he hl0.symm
-          · simp
-        · simp [givenTags, isReqOk, obsOf, reqTags]
-        · exact uniqueOk_nil _
-        · intro x hx
-          simp only [hfree', List.mem_cons] at hx
-          rcases hx with hx | hx
-          · subst hx; right; left; simp [answers]
-          · exact free_old h.pfree x hx
-        · simp [isReqOk]
-        · simp only [hnext']
-          have hle : s.pool.next ≤ a.peak + 1 := h.peak
-          exact peak_mono hle
+      exact Inv_process_tagged cfg a s mt t idx h
     · rw [if_neg ht0]; exact Inv_process_nochange cfg a s mt t idx h
+
+theorem Inv_step_process_kafka (cfg : Cfg) (a : Acc) (s : St) (mt : Int) (t idx : Nat) (h : Inv cfg a s) :
+    specObs cfg a idx (.process mt t) (obsOf (stepProcessKafka s t).1 (stepProcessKafka s t).2) = .ok ∧
+      Inv cfg (a.after (.process mt t) (obsOf (stepProcessKafka s t).1 (stepProcessKafka s t).2))
+        (stepProcessKafka s t).1 := Inv_process_tagged cfg a s mt t idx h
+
+/-- Kafka's time-out callback: the key is popped, nothing else happens -/
+theorem Inv_step_notify_kafka (cfg : Cfg) (a : Acc) (s : St) (rid idx : Nat) (h : Inv cfg a s)
+    (hen : ((stepNotifyKafka s rid).2.res != .badop) = true) :
+    specObs cfg a idx (.notify rid) (obsOf (stepNotifyKafka s rid).1 (stepNotifyKafka s rid).2) = .ok ∧
+      Inv cfg (a.after (.notify rid) (obsOf (stepNotifyKafka s rid).1 (stepNotifyKafka s rid).2))
+        (stepNotifyKafka s rid).1 := by
+  unfold stepNotifyKafka at hen ⊢
+  cases hr : s.reqs[rid]? with
+  | none => simp [hr] at hen
+  | some r =>
+    simp only [hr] at hen ⊢
+    by_cases hev : r.ev = .fired ∧ r.sub = true
+    · rw [if_pos hev]
+      have hreqs : QInv a.tags s.tagmap s.sendq (s.reqs.set rid { r with sub := false, key := .absent }) := by
+        apply QInv_reqs h.q
+        intro rid' t hi r' hr'
+        have hne : rid' ≠ rid := by
+          intro e; subst e
+          obtain ⟨r2, hr2, hsub, _⟩ := h.q.qitem rid' t hi
+          rw [hr] at hr2; injection hr2 with hr2; subst hr2
+          rw [hev.2] at hsub; cases hsub
+        exact ⟨r', by rw [set_ne hne]; exact hr', rfl, Or.inl rfl⟩
+      simp only
+      refine step_pack cfg a idx (.notify rid) _ _ (by simp) h.pool (own_plain h.own (by simp) (by simp) rfl) (ownReplyBad_other _ _ _ (by simp)) ?_ ?_ ?_ ?_ ?_ ?_
+      · rw [after_unans_other _ _ _ (by simp) (by simp)]
+        simp only [obsOf, reqTags, List.filter_nil, List.map_nil, List.append_nil]
+        exact hreqs
+      · simp [givenTags, isReqOk, obsOf, reqTags]
+      · exact uniqueOk_nil _
+      · exact free_old h.pfree
+      · simp [isReqOk]
+      · exact peak_mono h.peak
+    · simp [hev] at hen
 
 /-! #### send -/
 
@@ -1152,9 +1196,23 @@ theorem Inv_step (cfg : Cfg) (a : Acc) (s : St) (op : Op) (idx : Nat) (hmax : 2 
   | req e popped => exact Inv_step_req cfg a s e popped idx h hen
   | fire rid => exact Inv_step_fire cfg a s rid idx h hen
   | send => exact Inv_step_send cfg a s idx h hen
-  | notify rid => exact Inv_step_notify cfg a s rid idx h hen
-  | process mt t => exact Inv_step_process cfg a s mt t idx h
-  | ping => exact Inv_step_ping cfg a s idx h
+  | notify rid =>
+    simp only [opEnabled, stepOp] at hen
+    simp only [step, stepOp]
+    cases hfl : cfg.fl with
+    | thriftmux => simp only [hfl] at hen; exact Inv_step_notify cfg a s rid idx h hen
+    | kafka => simp only [hfl] at hen; exact Inv_step_notify_kafka cfg a s rid idx h hen
+  | process mt t =>
+    simp only [step, stepOp]
+    cases hfl : cfg.fl with
+    | thriftmux => exact Inv_step_process cfg a s mt t idx h
+    | kafka => exact Inv_step_process_kafka cfg a s mt t idx h
+  | ping =>
+    simp only [opEnabled, stepOp] at hen
+    simp only [step, stepOp]
+    cases hfl : cfg.fl with
+    | thriftmux => exact Inv_step_ping cfg a s idx h
+    | kafka => simp [hfl] at hen
   | reopen => exact Inv_step_reopen cfg a s idx hmax
 
 /-! ### whole histories -/
@@ -1200,7 +1258,7 @@ theorem spec_trace (cfg : Cfg) (hmax : 2 ≤ cfg.max) : ∀ (ops : List Op) (a :
     exact ⟨hv, ih _ _ (idx + 1) hinv hrest⟩
 
 /-- the state the model is in after `ops` -/
-def reachFrom (cfg : Cfg) (s : St) (ops : List Op) : St := ops.foldl (fun s op => (stepOp cfg.max s op).1) s
+def reachFrom (cfg : Cfg) (s : St) (ops : List Op) : St := ops.foldl (fun s op => (stepOp cfg.fl cfg.max s op).1) s
 
 def reach (cfg : Cfg) (ops : List Op) : St := reachFrom cfg St.init ops
 
